@@ -1,5 +1,6 @@
 import DmrVerif.Driver.Loop
+import DmrVerif.Driver.HstrpHandler
 
-/-! model driver for property C17 (stub: no operations registered yet) -/
+/-! model driver for property C17 (HSTRP/RRS handler) -/
 
-def main : IO Unit := Dmr.Driver.runMain []
+def main : IO Unit := Dmr.Driver.runMainS Dmr.Driver.HstrpHandler.handlerStep Dmr.Driver.HstrpHandler.dinit
